@@ -88,6 +88,10 @@ RenderIdx == {i \in 1..Len(Tab) : Tab[i].k = "render"}
 RenderFn  == [v \in {FromWire(Tab[i].v) : i \in RenderIdx} |->
                 Tab[CHOOSE i \in RenderIdx : FromWire(Tab[i].v) = v].r]
 Render(v) == RenderFn[v]
+\* text of the payload name tokens (unusual but legal file and directory names; opaque to the spec except for their
+\* code points, which decide prefix relations and the order in which archive members are sorted)
+NameIdx == {i \in 1..Len(Tab) : Tab[i].k = "name"}
+NameTxt == [t \in {Tab[i].tok : i \in NameIdx} |-> Tab[CHOOSE i \in NameIdx : Tab[i].tok = t].r]
 
 -----------------------------------------------------------------------------
 (* the universe: state points chosen to collide textually *)
@@ -214,7 +218,16 @@ Accept(C) == /\ \A i, j \in 1..Len(C) : i # j => ~CompPrefix(C[i], C[j])   \* in
 \*            inner/workspace/<32 zeros>/{signac_statepoint.json, payload.dat} (an embedded foreign job directory, depth 3)
 tSub == <<115, 117, 98>>  tDeep == <<100, 101, 101, 112>>  tEmb == <<101, 109, 98>>  tTwo == <<116, 119, 111>>
 tInner == <<105, 110, 110, 101, 114>>  tWs == <<119, 111, 114, 107, 115, 112, 97, 99, 101>>  tZeros == [k \in 1..32 |-> 48]
-DirsOf(job) == {<<>>} \cup (IF job.nested THEN {<<tSub>>, <<tSub, tDeep>>} ELSE {})
+\*   odd   :  unusual-but-legal names, as tokens whose text the harness supplies (NameTxt):
+\*            <file token> for every FileToks, <dir token>/in.txt for every DirToks, odd2/<file token> for every Deep2Toks
+FileToks == {"f_emoji", "f_math", "f_cjkb", "f_ffff", "f_fffd", "f_eacute", "f_cjk", "f_space", "f_dot", "f_tilde", "f_tdot",
+             "f_long", "f_a", "f_a_dot_b", "f_a_space_b", "f_ab", "f_before_sp", "f_after_sp"}
+DirToks  == {"d_emoji", "d_math", "d_ffff", "d_eacute", "d_space", "d_dot", "d_tilde", "d_tdot", "d_long", "d_b", "d_b_dot_c", "d_b_space_c", "d_bc"}
+Deep2Toks == {"f_emoji", "f_math", "f_ffff", "f_cjk", "f_space", "f_dot", "f_long", "f_a", "f_a_dot_b", "f_after_sp"}
+tOdd2 == <<111, 100, 100, 50>>  tIn == <<105, 110, 46, 116, 120, 116>>          \* "odd2"  "in.txt"
+OddDirs  == {<<NameTxt[t]>> : t \in DirToks} \cup {<<tOdd2>>}
+OddFiles == {<<NameTxt[t]>> : t \in FileToks} \cup {<<NameTxt[t], tIn>> : t \in DirToks} \cup {<<tOdd2, NameTxt[t]>> : t \in Deep2Toks}
+DirsOf(job) == {<<>>} \cup (IF job.odd THEN OddDirs ELSE {}) \cup (IF job.nested THEN {<<tSub>>, <<tSub, tDeep>>} ELSE {})
                       \cup (IF job.embed # "none" THEN {<<tSub>>, <<tEmb>>, <<tEmb, tTwo>>, <<tInner>>, <<tInner, tWs>>, <<tInner, tWs, tZeros>>} ELSE {})
 SpDirsOf(job) == {<<>>} \cup (IF job.embed # "none" THEN {<<tSub>>, <<tEmb, tTwo>>, <<tInner, tWs, tZeros>>} ELSE {})
 \* the directory holds the job's own state point; all other ones hold a foreign state point (each a different one)
@@ -223,6 +236,7 @@ SelfSp(job, d) == d = <<>> \/ (job.embed = "self" /\ d = <<tEmb, tTwo>>)
 fSP == <<<<0>>>>  fDOC == <<<<1>>>>  fTOP == <<<<2>>>>  fNEST == <<<<3>>, <<4>>, <<5>>>>
 FilesOf(job) == {fSP, fTOP} \cup (IF job.doc THEN {fDOC} ELSE {}) \cup (IF job.nested THEN {fNEST} ELSE {})
                 \cup (IF job.embed # "none" THEN {d \o <<<<0>>>> : d \in SpDirsOf(job) \ {<<>>}} \cup {<<tInner, tWs, tZeros, <<6>>>>} ELSE {})
+                \cup (IF job.odd THEN OddFiles ELSE {})
 IdealTree(J, C) == {<<C[i] \o f, i>> : <<i, f>> \in UNION {{<<i, f>> : f \in FilesOf(J[i])} : i \in 1..Len(J)}}
 IdealRoundTrip(J, C) ==
   LET tree == IdealTree(J, C)
@@ -304,8 +318,11 @@ ImportOf(J, P, kind, F, cb) ==
       Stray    == IF kind = "zip"
                   THEN UNION {{j \in 1..n : ZipPre(N[i], N[j]) /\ ~SubPath(N[i], N[j])} : i \in {i \in 1..n : Ident(i)}}
                   ELSE {}
-      Covers(i, j) == (J[j].doc => J[i].doc) /\ (J[j].nested => J[i].nested) /\ (J[j].embed = "none" \/ J[i].embed # "none")
-      Exact(i) == Ident(i) /\ \A j \in Into(i) \ {i} : N[j] = N[i] /\ Covers(i, j)
+      Covers(i, j) == (J[j].doc => J[i].doc) /\ (J[j].nested => J[i].nested) /\ (J[j].embed = "none" \/ J[i].embed # "none") /\ (J[j].odd => J[i].odd)
+      \* zip: the members copied into a job are the archive names within its directory (_is_within / startswith);
+      \* every payload file of the job, whatever its name, must be among them
+      ZipHasAll(i) == kind # "zip" \/ ~J[i].odd \/ \A f \in OddFiles : ZipPre(N[i], Under(N[i], f))
+      Exact(i) == Ident(i) /\ ZipHasAll(i) /\ \A j \in Into(i) \ {i} : N[j] = N[i] /\ Covers(i, j)
       none == [i \in 1..n |-> FALSE]
   IN \* clean raises after the analysis (ident is what the analysis identified):
      \* tarfile.extractall(filter="data") refuses members outside the extraction directory (Python >= 3.12);
@@ -387,7 +404,7 @@ ParseBack(sch, C) ==
 IdIdx == {i \in 1..Len(Tab) : Tab[i].k = "id"}
 IdTbl == IF MODE = "universe" THEN [u \in 1..NU |-> Tab[CHOOSE i \in IdIdx : Tab[i].u = u].r] ELSE <<>>
 EmbedOf(u) == IF u % 6 = 1 THEN "self" ELSE IF u % 6 = 4 THEN "foreign" ELSE "none"
-JobOf(u) == [u |-> u, sp |-> Universe[u], id |-> IdTbl[u], doc |-> u % 3 # 0, nested |-> u % 2 = 1, embed |-> EmbedOf(u)]
+JobOf(u) == [u |-> u, sp |-> Universe[u], id |-> IdTbl[u], doc |-> u % 3 # 0, nested |-> u % 2 = 1, embed |-> EmbedOf(u), odd |-> u % 5 = 2]
 Perms(S) == LET m == Cardinality(S) IN {s \in [1..m -> S] : \A i, j \in 1..m : i # j => s[i] # s[j]}
 \* a case is kept small (state = [tag, us, ps]); the jobs are looked up when a theorem is evaluated:
 \* universe mode: us = universe indices in listing order; file mode: tag = line of the harness file, us = 1..n
@@ -396,7 +413,7 @@ UCases == IF MODE # "universe" THEN {} ELSE
                         : s \in Perms(S)} : S \in {S \in UNION {kSubset(k, 1..NU) : k \in 0..MAXJOBS} : SumSet(S) % NPARTS = PART}}
 FileIn == IF MODE = "file" THEN ndJsonDeserialize(IOEnv.C16_CASES) ELSE <<>>
 FJobs(r) == [i \in 1..Len(r.jobs) |-> [u |-> r.jobs[i].u, sp |-> FromWire(r.jobs[i].sp), id |-> r.jobs[i].id,
-                                        doc |-> r.jobs[i].doc, nested |-> r.jobs[i].nested, embed |-> r.jobs[i].embed]]
+                                        doc |-> r.jobs[i].doc, nested |-> r.jobs[i].nested, embed |-> r.jobs[i].embed, odd |-> r.jobs[i].odd]]
 Cases == CASE MODE = "universe" -> UCases
            [] MODE = "file"     -> {[tag |-> i, us |-> [k \in 1..Len(FileIn[i].jobs) |-> k], ps |-> FileIn[i].ps] : i \in 1..Len(FileIn)}
            [] OTHER             -> {[tag |-> 0, us |-> <<>>, ps |-> 1]}
@@ -467,7 +484,7 @@ OutCase(x) == LET J == JobsOf(x)  ps == PathSpecs[x.ps]  n == Len(J)
                   sc == ps.kind = "none" /\ SchemaApplicable(J)
                   sch == SchemaOf(J) IN
   [tag |-> IF MODE = "file" THEN FileIn[x.tag].tag ELSE 0, ps |-> x.ps, us |-> [i \in 1..n |-> J[i].u],
-   doc |-> [i \in 1..n |-> J[i].doc], nested |-> [i \in 1..n |-> J[i].nested], embed |-> [i \in 1..n |-> J[i].embed],
+   doc |-> [i \in 1..n |-> J[i].doc], nested |-> [i \in 1..n |-> J[i].nested], embed |-> [i \in 1..n |-> J[i].embed], odd |-> [i \in 1..n |-> J[i].odd],
    pathsok |-> allok, paths |-> [i \in 1..n |-> pr[i].s],
    accept |-> allok /\ Accept(comps),
    safe |-> allok => \A i \in 1..n : /\ (pr[i].s = <<>> \/ pr[i].s[1] # SL)      \* sandbox safety of the replay
@@ -480,7 +497,8 @@ OutCase(x) == LET J == JobsOf(x)  ps == PathSpecs[x.ps]  n == Len(J)
 WireSeg(s) == [k |-> s.k, t |-> s.t, kp |-> s.kp]
 Describe == <<[universe |-> [u \in 1..NU |-> ToWire(Universe[u])],
                leaves |-> LET ls == SetToSeq(Leaves) IN [i \in 1..Len(ls) |-> ToWire(ls[i])],
-               doc |-> [u \in 1..NU |-> u % 3 # 0], nested |-> [u \in 1..NU |-> u % 2 = 1], embed |-> [u \in 1..NU |-> EmbedOf(u)],
+               doc |-> [u \in 1..NU |-> u % 3 # 0], nested |-> [u \in 1..NU |-> u % 2 = 1], embed |-> [u \in 1..NU |-> EmbedOf(u)], odd |-> [u \in 1..NU |-> u % 5 = 2],
+               filetoks |-> SetToSeq(FileToks), dirtoks |-> SetToSeq(DirToks), deep2toks |-> SetToSeq(Deep2Toks),
                pathspecs |-> [p \in 1..Len(PathSpecs) |-> [name |-> PathSpecs[p].name, kind |-> PathSpecs[p].kind,
                                                           segs |-> [t \in 1..Len(PathSpecs[p].segs) |-> WireSeg(PathSpecs[p].segs[t])]]]]>>
 Export == /\ TLCGet("level") >= 0
